@@ -158,7 +158,7 @@ impl KeyRegWrapper {
     //@ rewrite /\.map\(\|s\| s\.into_inner\(\)\)/ => /.map(|s: KesSigWrapper| -> (r: Sum6KesSig) ensures r == kes_inner(s) { s.into_inner() })/
     //@ rewrite /\.map_err\(\|_\| ProtocolRegistrationErrorWrapper::PoolAddressEncoding\)/ => /.map_err(|_e: OpCertError| -> (r: ProtocolRegistrationErrorWrapper) { ProtocolRegistrationErrorWrapper::PoolAddressEncoding })/
     //@ rewrite /cfg!\(not\(feature = "allow_skip_signer_certification"\)\)/ => /true/
-    //@ rewrite /if let Some\(&stake\) = ([^{]*)\{/ => /if let Some(verif_stake_ref) = \1{ let stake = *verif_stake_ref;/
+    //@ rewrite? /if let Some\(&stake\) = ([^{]*)\{/ => /if let Some(verif_stake_ref) = \1{ let stake = *verif_stake_ref;/
     //@ rewrite /Err\(anyhow!\(\s*(ProtocolRegistrationErrorWrapper::\w+)\s*\)\)/ => /Err(\1)/
     //@ spec ensures ret is Ok ==> registration_ok(old(self), final(self), &parameters, ret->Ok_0@),
     //@ spec         ret is Err ==> final(self).stm_key_reg.entries == old(self).stm_key_reg.entries,
